@@ -448,9 +448,24 @@ func (u *Unit) callByContract(st *State, fi *FuncInfo, targs []types.Type, args 
 	}
 	var results []Value
 	oldSt := st.clone()
-	// modifies: havoc
+	// modifies: havoc (a `stored(b,i,v)` postcondition defines the new heap exactly)
+	exact := map[string]*Term{}
+	for _, en := range ct.Ensures {
+		if en.Expr.Kind == "call" && en.Expr.Name == "stored" && len(en.Expr.Args) == 3 {
+			b := u.evalSpec(env, en.Expr.Args[0])
+			i := u.evalSpec(env, en.Expr.Args[1])
+			v := u.evalSpec(env, en.Expr.Args[2])
+			if b.K == KBuf {
+				d := u.bufData(st, b)
+				exact["H:"+elemKey(b.Elem)] = Store(u.heap(st, b.Elem), Add(d.Ptr, i.Term), v.Term)
+			}
+		}
+	}
 	for m := range ct.Modifies {
 		u.havocClass(st, m, ct, env)
+	}
+	for k, t := range exact {
+		st.mem[k] = t
 	}
 	penv := *env
 	penv.cur, penv.old = st, oldSt
@@ -648,6 +663,7 @@ func (u *Unit) execLoop(st *State, init ast.Stmt, cond ast.Expr, post ast.Stmt, 
 	// havoc: assigned variables declared outside the loop + modifiable components
 	head := st.clone()
 	head.branch = append([]*Term{}, st.branch...)
+	u.headCounter[ord] = u.ctx.n
 	mods := assignedVars(info, body, post)
 	for o := range mods {
 		if v, ok := head.vars[o]; ok {
